@@ -226,8 +226,15 @@ def check(ctx, rep):
             for kind, val, s in w.exec_block(loop.body, State()):
                 appends = [e for e in s.events if e.kind == "call" and isinstance(e.node.func, ast.Attribute) and e.node.func.attr == "append"
                            and norm(e.node.func.value) == "self.files"]
-                decided = [e for e in s.events if e.kind == "test" and isinstance(e.node, ast.Call) and isinstance(e.node.func, ast.Attribute)
-                           and e.node.func.attr == "prep_initfiles_canaddfile"]
+                def _filter_call(e):
+                    n = e.node
+                    if isinstance(n, ast.Name) and e.defs and n.id in e.defs:
+                        n = e.defs[n.id]  # verdict kept in a local first
+                    if isinstance(n, ast.Call) and isinstance(n.func, ast.Attribute) and n.func.attr == "prep_initfiles_canaddfile":
+                        return n
+                    return None
+
+                decided = [e for e in s.events if e.kind == "test" and _filter_call(e) is not None]
                 excepted = any(e.kind == "except" for e in s.events)
                 if excepted:
                     continue
@@ -242,7 +249,7 @@ def check(ctx, rep):
                 for d in decided:
                     from ..structure import concat_pieces
 
-                    args = list(d.node.args)
+                    args = list(_filter_call(d).args)
                     if len(args) >= 3:
                         pcs = concat_pieces(expand_ast(args[1], pi, d.defs or {}))
                         if norm(args[2]) != var or pcs != [("expr", "self.selectorbase"), ("lit", "/"), ("expr", var)]:
